@@ -4,6 +4,9 @@
 package world
 
 import (
+	"sync"
+	"sync/atomic"
+
 	"io"
 	"io/fs"
 	"runtime"
@@ -11,6 +14,7 @@ import (
 	"strings"
 	"syscall"
 	"time"
+	"verif.local/sim/simrt"
 )
 
 // Kind of an inode.
@@ -126,10 +130,15 @@ type World struct {
 	Frozen bool // killed: nothing has effect any more
 	// the kill struck an operation of a goroutine other than main
 	killPending bool
-	Killed      bool
-	Blocked     bool // stuck in a read of standard input that never returns
-	ExitCode    int
-	Exited      bool
+	// one goroutine at a time inside the world (re-entrant): gopatch runs on one
+	// goroutine today, a changed gopatch may not
+	gilMu    sync.Mutex
+	gilOwner uintptr
+	gilDepth int
+	Killed   bool
+	Blocked  bool // stuck in a read of standard input that never returns
+	ExitCode int
+	Exited   bool
 
 	Stdout      []byte
 	Stderr      []byte
@@ -482,6 +491,8 @@ type sigHandler struct {
 // NotifySignal registers a handler (signal.Notify): deliver is called, on the
 // goroutine that executes the struck operation, when the named signal arrives.
 func (w *World) NotifySignal(name string, key interface{}, deliver func()) {
+	w.enter()
+	defer w.leave()
 	if w.sigHandlers == nil {
 		w.sigHandlers = map[string][]sigHandler{}
 	}
@@ -491,6 +502,8 @@ func (w *World) NotifySignal(name string, key interface{}, deliver func()) {
 
 // StopSignals removes every handler registered under key (signal.Stop).
 func (w *World) StopSignals(key interface{}) {
+	w.enter()
+	defer w.leave()
 	for name, hs := range w.sigHandlers {
 		var keep []sigHandler
 		for _, h := range hs {
@@ -504,6 +517,8 @@ func (w *World) StopSignals(key interface{}) {
 
 // IgnoreSignal / ResetSignal implement signal.Ignore and signal.Reset.
 func (w *World) IgnoreSignal(name string) {
+	w.enter()
+	defer w.leave()
 	if w.sigIgnored == nil {
 		w.sigIgnored = map[string]bool{}
 	}
@@ -513,6 +528,8 @@ func (w *World) IgnoreSignal(name string) {
 }
 
 func (w *World) ResetSignal(name string) {
+	w.enter()
+	defer w.leave()
 	delete(w.sigIgnored, name)
 	delete(w.sigHandlers, name)
 }
@@ -566,6 +583,28 @@ func (w *World) FiredOps() []Op {
 		out = append(out, w.Log[s])
 	}
 	return out
+}
+
+// enter and leave bracket every operation on the world. The lock is re-entrant
+// per goroutine (operations call each other) and is released when a kill or
+// exit sentinel unwinds through the deferred leave.
+func (w *World) enter() {
+	g := simrt.G()
+	if atomic.LoadUintptr(&w.gilOwner) == g {
+		w.gilDepth++
+		return
+	}
+	w.gilMu.Lock()
+	atomic.StoreUintptr(&w.gilOwner, g)
+	w.gilDepth = 1
+}
+
+func (w *World) leave() {
+	w.gilDepth--
+	if w.gilDepth == 0 {
+		atomic.StoreUintptr(&w.gilOwner, 0)
+		w.gilMu.Unlock()
+	}
 }
 
 // OnMainGoroutine, set by the harness, reports whether the calling goroutine is
@@ -710,6 +749,8 @@ func baseName(p string) string {
 
 // Lstat / Stat.
 func (w *World) Stat(name string, follow bool) (*FileStat, syscall.Errno) {
+	w.enter()
+	defer w.leave()
 	opn := "lstat"
 	if follow {
 		opn = "stat"
@@ -774,6 +815,8 @@ func accMode(flag int) int { return flag & (O_RDONLY | O_WRONLY | O_RDWR) }
 
 // OpenFile opens or creates a file.
 func (w *World) OpenFile(name string, flag int, perm fs.FileMode) (*Handle, syscall.Errno) {
+	w.enter()
+	defer w.leave()
 	abs := w.Abs(name)
 	op, f, ok := w.begin("open", abs)
 	defer w.end(op)
@@ -879,6 +922,8 @@ func (w *World) chunk(knob int, want int) int {
 // Read implements read(2) on a handle. It returns io.EOF as errno 0 with n==0
 // and eof==true.
 func (h *Handle) Read(b []byte) (n int, eof bool, errno syscall.Errno) {
+	h.w.enter()
+	defer h.w.leave()
 	w := h.w
 	name := "read"
 	if h.stream == 1 {
@@ -1001,6 +1046,8 @@ func (h *Handle) Read(b []byte) (n int, eof bool, errno syscall.Errno) {
 
 // Write implements write(2) (looping like os.File.Write: all or error).
 func (h *Handle) Write(b []byte) (int, syscall.Errno) {
+	h.w.enter()
+	defer h.w.leave()
 	w := h.w
 	name := "write"
 	switch h.stream {
@@ -1096,6 +1143,8 @@ func (h *Handle) Write(b []byte) (int, syscall.Errno) {
 
 // Close closes the handle.
 func (h *Handle) Close() syscall.Errno {
+	h.w.enter()
+	defer h.w.leave()
 	w := h.w
 	op, f, ok := w.begin("close", h.abs)
 	op.H = h.id
@@ -1122,6 +1171,8 @@ func (h *Handle) Close() syscall.Errno {
 
 // Sync is fsync(2): a no-op in the process-crash model, but logged.
 func (h *Handle) Sync() syscall.Errno {
+	h.w.enter()
+	defer h.w.leave()
 	w := h.w
 	op, f, ok := w.begin("sync", h.abs)
 	op.H = h.id
@@ -1141,6 +1192,8 @@ func (h *Handle) Sync() syscall.Errno {
 
 // Seek implements lseek(2).
 func (h *Handle) Seek(off int64, whence int) (int64, syscall.Errno) {
+	h.w.enter()
+	defer h.w.leave()
 	if h.closed || h.stream != 0 {
 		return 0, syscall.ESPIPE
 	}
@@ -1163,6 +1216,8 @@ func (h *Handle) Seek(off int64, whence int) (int64, syscall.Errno) {
 
 // Fstat.
 func (h *Handle) Stat() (*FileStat, syscall.Errno) {
+	h.w.enter()
+	defer h.w.leave()
 	w := h.w
 	op, f, ok := w.begin("fstat", h.abs)
 	op.H = h.id
@@ -1186,6 +1241,8 @@ func (h *Handle) Stat() (*FileStat, syscall.Errno) {
 
 // Truncate implements ftruncate(2).
 func (h *Handle) Truncate(size int64) syscall.Errno {
+	h.w.enter()
+	defer h.w.leave()
 	w := h.w
 	op, f, ok := w.begin("ftruncate", h.abs)
 	op.H = h.id
@@ -1219,6 +1276,8 @@ func (w *World) truncNode(n *Inode, size int64) {
 
 // Chmod implements fchmod(2).
 func (h *Handle) Chmod(mode fs.FileMode) syscall.Errno {
+	h.w.enter()
+	defer h.w.leave()
 	w := h.w
 	op, f, ok := w.begin("fchmod", h.abs)
 	op.H = h.id
@@ -1249,6 +1308,8 @@ type DirEntryInfo struct {
 
 // ReadDirNames reads up to n names (all if n<=0) in directory order.
 func (h *Handle) ReadDirNames(n int) ([]DirEntryInfo, bool, syscall.Errno) {
+	h.w.enter()
+	defer h.w.leave()
 	w := h.w
 	op, f, ok := w.begin("readdir", h.abs)
 	op.H = h.id
@@ -1301,6 +1362,8 @@ func StatEntry(e DirEntryInfo) *FileStat { return statOf(e.Name, e.Node) }
 // path-level mutating operations
 
 func (w *World) Mkdir(name string, perm fs.FileMode) syscall.Errno {
+	w.enter()
+	defer w.leave()
 	op, f, ok := w.begin("mkdir", w.Abs(name))
 	defer w.end(op)
 	if !ok {
@@ -1333,6 +1396,8 @@ func (w *World) Mkdir(name string, perm fs.FileMode) syscall.Errno {
 }
 
 func (w *World) Remove(name string) syscall.Errno {
+	w.enter()
+	defer w.leave()
 	op, f, ok := w.begin("remove", w.Abs(name))
 	defer w.end(op)
 	if !ok {
@@ -1385,6 +1450,8 @@ func isAncestor(a, b *Inode) bool {
 }
 
 func (w *World) Rename(oldp, newp string) syscall.Errno {
+	w.enter()
+	defer w.leave()
 	op, f, ok := w.begin("rename", w.Abs(oldp))
 	defer w.end(op)
 	op.Path2 = w.Abs(newp)
@@ -1464,6 +1531,8 @@ func (w *World) Rename(oldp, newp string) syscall.Errno {
 }
 
 func (w *World) Symlink(target, linkp string) syscall.Errno {
+	w.enter()
+	defer w.leave()
 	op, f, ok := w.begin("symlink", w.Abs(linkp))
 	defer w.end(op)
 	op.Path2 = target
@@ -1501,6 +1570,8 @@ func (w *World) Symlink(target, linkp string) syscall.Errno {
 }
 
 func (w *World) Link(oldp, newp string) syscall.Errno {
+	w.enter()
+	defer w.leave()
 	op, f, ok := w.begin("link", w.Abs(oldp))
 	defer w.end(op)
 	op.Path2 = w.Abs(newp)
@@ -1541,6 +1612,8 @@ func (w *World) Link(oldp, newp string) syscall.Errno {
 }
 
 func (w *World) Readlink(name string) (string, syscall.Errno) {
+	w.enter()
+	defer w.leave()
 	op, f, ok := w.begin("readlink", w.Abs(name))
 	defer w.end(op)
 	if !ok {
@@ -1563,6 +1636,8 @@ func (w *World) Readlink(name string) (string, syscall.Errno) {
 }
 
 func (w *World) Chmod(name string, mode fs.FileMode) syscall.Errno {
+	w.enter()
+	defer w.leave()
 	op, f, ok := w.begin("chmod", w.Abs(name))
 	defer w.end(op)
 	if !ok {
@@ -1585,6 +1660,8 @@ func (w *World) Chmod(name string, mode fs.FileMode) syscall.Errno {
 }
 
 func (w *World) Chtimes(name string, mtime time.Time) syscall.Errno {
+	w.enter()
+	defer w.leave()
 	op, f, ok := w.begin("chtimes", w.Abs(name))
 	defer w.end(op)
 	if !ok {
@@ -1608,6 +1685,8 @@ func (w *World) Chtimes(name string, mtime time.Time) syscall.Errno {
 }
 
 func (w *World) Truncate(name string, size int64) syscall.Errno {
+	w.enter()
+	defer w.leave()
 	op, f, ok := w.begin("truncate", w.Abs(name))
 	defer w.end(op)
 	if !ok {
@@ -1636,6 +1715,8 @@ func (w *World) Truncate(name string, size int64) syscall.Errno {
 }
 
 func (w *World) Chdir(name string) syscall.Errno {
+	w.enter()
+	defer w.leave()
 	op, f, ok := w.begin("chdir", w.Abs(name))
 	defer w.end(op)
 	if !ok {
@@ -1658,6 +1739,8 @@ func (w *World) Chdir(name string) syscall.Errno {
 }
 
 func (w *World) Getwd() (string, syscall.Errno) {
+	w.enter()
+	defer w.leave()
 	op, f, ok := w.begin("getwd", w.Cwd)
 	defer w.end(op)
 	if !ok {
@@ -1671,6 +1754,8 @@ func (w *World) Getwd() (string, syscall.Errno) {
 
 // DoExit records process exit and unwinds.
 func (w *World) DoExit(code int) {
+	w.enter()
+	defer w.leave()
 	// what the parent of a real process sees: the low eight bits
 	code &= 0xff
 	op, _, ok := w.begin("exit", "")
@@ -1684,6 +1769,8 @@ func (w *World) DoExit(code int) {
 
 // RandName returns a pseudo-random suffix for temporary files.
 func (w *World) RandName() string {
+	w.enter()
+	defer w.leave()
 	return itoa(int(w.rng.Uint64() % 1_000_000_000))
 }
 
@@ -1736,6 +1823,8 @@ func (w *World) Snapshot() []FileState {
 // resolved absolute path together with the node ("" and nil if it does not
 // resolve).
 func (w *World) RealPath(p string, followLast bool) (string, *Inode) {
+	w.enter()
+	defer w.leave()
 	r, e := w.resolve(p, followLast)
 	if e != 0 || r.node == nil {
 		return "", nil
